@@ -1836,6 +1836,10 @@ func (w *world) stateDigest() uint64 {
 			// registrations in progress: which of the queued commands have been carried out so far follows the
 			// order in which the daemon ranged over its maps; only how many are left is canonical
 			rs = append(rs, fmt.Sprintf("installing, %d commands queued", q))
+		} else if n.mgmtFail > 0 || (n.lastFail != 0 && w.now() <= n.lastFail+600*time.Millisecond) {
+			// a command is (or may be) inside its retry loop: which one met the failure follows the same map
+			// order, and the queue is empty while the client sleeps between two attempts
+			rs = append(rs, "installing, a command is being retried")
 		} else {
 			for k, c := range n.routes {
 				rs = append(rs, fmt.Sprintf("%s|%d|%d=%d", k.name, k.face, k.origin, c))
@@ -1843,11 +1847,13 @@ func (w *world) stateDigest() uint64 {
 		}
 		d.SortedStrings(rs)
 		if w.ctx != nil && w.ctx.Log != nil && os.Getenv("VERIF_DEBUG_STATE") != "" {
-			pc := ""
+			pcs := []string{}
 			for _, pr := range pfx {
-				pc += fmt.Sprintf("%s:%d(known %d latest %d) ", pr.Name, len(pr.Prefixes), pr.Known, pr.Latest)
+				pcs = append(pcs, fmt.Sprintf("%s:%d(known %d latest %d)", pr.Name, len(pr.Prefixes), pr.Known, pr.Latest))
 			}
-			w.ctx.Logf("  node %d seq %d announced %d pfx {%s} nroutes %d qlen %d", n.id, seq, len(n.announced), pc, len(rs), n.router.VerifMgmtQueueLen())
+			sort.Strings(pcs)
+			sort.Strings(rs)
+			w.ctx.Logf("  node %d seq %d announced %d pfx {%s} routes %v qlen %d", n.id, seq, len(n.announced), strings.Join(pcs, " "), rs, n.router.VerifMgmtQueueLen())
 		}
 	}
 	d.I(len(w.inflight))
